@@ -333,7 +333,7 @@ class Round:
                     hist.setdefault(hk, {})
                     hist[hk][cls] = hist[hk].get(cls, 0) + 1
                     kp = '%s,%s' % (ka, kb)
-                    hist['kind_pairs'][kp] = hist['kind_pairs'].get(kp, 0) + 1
+                    hist['kind_pairs_x_ops'][kp] = hist['kind_pairs_x_ops'].get(kp, 0) + 1
                     ref = ref_bin(op, a, b)
                     if r != ref:
                         self.fail('oracle', 'value:%s:%s:%s' % (op, ka, kb),
@@ -551,7 +551,7 @@ def run(env, res):
                 'transitivity laws (looked up in the table of real results); distinct = distinct (operator, a, b); '
                 'non-trivial = the operator is defined for the two kinds, or an operand is null or a boolean '
                 '(the rejection and null clauses)' % (len(BOUNDARY), len(BIN_OPS), len(UN_OPS)))
-    hist = {'kind_pairs': {}}
+    hist = {'kind_pairs_x_ops': {}}
     if env['replay']:
         rp = json.load(open(env['replay']))
         c = rp['case']
@@ -562,7 +562,7 @@ def run(env, res):
     if tier == 'quick':
         plan = [30]
     else:
-        plan = [60, 90, 90, 90, 90, 90]
+        plan = [60, 80, 80, 80]
     for n_random in plan:
         vals = make_corpus(rng, n_random)
         Round(vals, drv, res, hist).run()
